@@ -540,6 +540,72 @@ impl G {
                     .boxed(),
             ));
         }
+        // nullability-sensitive wrappers (IS [NOT] NULL, A = A, A IS [NOT] DISTINCT FROM A, A OR NOT A, A * 0, …) around a
+        // CASE whose branches are fallible-to-NULL (TRY_CAST that can fail, NULLIF, guarded division without ELSE) and whose
+        // other branches are non-NULL literals: the rewrites gated on `!nullable(..)` depend on the nullability analysis
+        for t in ALL_TYS {
+            let mut to_null: Vec<(u32, S)> = vec![];
+            for src in ALL_TYS {
+                if src != t && cast_supported(src, t) {
+                    let inner: S = prop_oneof![4 => self.col(src), 1 => self.expr(src, 1)].boxed();
+                    to_null.push((2, (inner, 0u8..4).prop_map(move |(x, wrap)| {
+                        let c = E::Cast { try_: true, e: bx(x), to: t };
+                        match wrap {
+                            1 if t.is_signed_int() || t.is_float() || t == Ty::Dec => E::Neg(bx(c)),
+                            2 if t == Ty::Bool => E::Not(bx(c)),
+                            _ => c,
+                        }
+                    }).boxed()));
+                }
+            }
+            if self.cfg.funcs {
+                to_null.push((3, (self.col(t), self.lit_nonnull(t)).prop_map(|(c, l)| E::Func(Fun::NullIf, vec![c, l])).boxed()));
+            }
+            if t.is_int() {
+                to_null.push((2, (self.leaf(t), self.col(t)).prop_map(move |(n, d)| E::Case { base: None, whens: vec![(E::bin(Op::Ne, d.clone(), G::zero_lit(t)), E::bin(Op::Div, n, d))], els: None }).boxed()));
+            }
+            let to_null: S = Union::new_weighted(to_null).boxed();
+            // guard: mostly a null-rejecting predicate on a column the branch mentions, sometimes anything
+            let branch_and_guard = (to_null, b.clone(), self.lit_nonnull(Ty::Bool), 0u8..5, cmp_op()).prop_flat_map(move |(br, anyb, _, k, op)| {
+                let col = br.columns().first().copied();
+                let g: BoxedStrategy<E> = match (col, k) {
+                    (Some(c), 0) => Just(E::Is(IsKind::NotNull, bx(E::Col(c)))).boxed(),
+                    (Some(c), 1) | (Some(c), 2) => value(col_ty(c), 0).prop_map(move |v| E::bin(op, E::Col(c), E::Lit(col_ty(c), v))).boxed(),
+                    (Some(c), 3) => prop::collection::vec(value(col_ty(c), 0), 1..4).prop_map(move |vs| E::InList { neg: false, e: bx(E::Col(c)), list: vs.into_iter().map(|v| E::Lit(col_ty(c), v)).collect() }).boxed(),
+                    _ => Just(anyb.clone()).boxed(),
+                };
+                (Just(br), g)
+            });
+            let case_of = (branch_and_guard, prop::option::weighted(0.8, self.lit_nonnull(t)), prop::option::weighted(0.3, (b.clone(), self.lit_nonnull(t))))
+                .prop_map(|((br, g), els, extra)| {
+                    let mut whens = vec![(g, br)];
+                    if let Some((c2, l2)) = extra {
+                        whens.push((c2, l2));
+                    }
+                    E::Case { base: None, whens, els: els.map(bx) }
+                });
+            let zero = if t.is_int() || t.is_float() { Some(G::zero_lit(t)) } else { None };
+            alts.push((
+                2,
+                (case_of, 0u8..9, self.lit_nonnull(t))
+                    .prop_map(move |(a, k, l)| match k {
+                        0 | 1 => E::Is(IsKind::Null, bx(a)),
+                        2 | 3 => E::Is(IsKind::NotNull, bx(a)),
+                        4 => E::bin(Op::Eq, a.clone(), a),
+                        5 => E::bin(Op::NotDistinct, a.clone(), a),
+                        6 => E::bin(Op::Distinct, a, l),
+                        7 => match (&zero, t == Ty::Bool) {
+                            (Some(z), _) => E::Is(IsKind::Null, bx(E::bin(Op::Mul, a, z.clone()))),
+                            (None, true) => E::bin(Op::Or, a.clone(), E::Not(bx(a))),
+                            _ => E::Is(IsKind::NotNull, bx(a)),
+                        },
+                        _ => {
+                            if t == Ty::Bool { E::bin(Op::And, a.clone(), E::Not(bx(a))) } else { E::Is(IsKind::Null, bx(E::Case { base: None, whens: vec![(E::Is(IsKind::NotNull, bx(a.clone())), a)], els: Some(bx(l)) })) }
+                        }
+                    })
+                    .boxed(),
+            ));
+        }
         let bl = prop::sample::select(vec![V::B(true), V::B(false), V::Null]).prop_map(|v| E::Lit(Ty::Bool, v));
         alts.push((
             4,
